@@ -238,4 +238,331 @@ Section Proofs2.
       + rewrite <- lsum_filter, <- lsum_map_scal. apply lsum_map_ext. intros j Hj. apply in_seq in Hj.
         rewrite K11 by lia. unfold kadj. destruct (adj i j); ring.
   Qed.
+
+  (* ---------------------------------------------------------------- ordered pairs vs edges *)
+  Lemma seq_S_last a n : seq a (Datatypes.S n) = seq a n ++ [(a + n)%nat].
+  Proof. apply seq_S. Qed.
+
+  Lemma dsum_sym n (g : nat -> nat -> K) :
+    lsum (map (fun i => lsum (map (g i) (seq 0 n))) (seq 0 n))
+    = lsum (map (fun i => lsum (map (fun j => g i j + g j i) (seq (i + 1) (n - (i + 1))))) (seq 0 n))
+      + lsum (map (fun i => g i i) (seq 0 n)).
+  Proof.
+    induction n as [|n IH]; [cbn; ring|].
+    rewrite !seq_S_last. cbn [Nat.add]. rewrite !map_app, !lsum_app. cbn [map]. rewrite !lsum_one.
+    rewrite map_app, lsum_app. cbn [map]. rewrite lsum_one.
+    transitivity ((lsum (map (fun i => lsum (map (g i) (seq 0 n))) (seq 0 n))
+                   + lsum (map (fun i => g i n) (seq 0 n)))
+                  + (lsum (map (g n) (seq 0 n)) + g n n) : K).
+    { f_equal. rewrite <- lsum_map_add. apply lsum_map_ext. intros i _.
+      rewrite map_app, lsum_app. cbn [map]. rewrite lsum_one. reflexivity. }
+    rewrite IH.
+    replace (Datatypes.S n - (n + 1))%nat with 0%nat by lia. cbn [seq map]. rewrite lsum_nil.
+    transitivity ((lsum (map (fun i => lsum (map (fun j => g i j + g j i) (seq (i + 1) (n - (i + 1))))) (seq 0 n))
+                   + lsum (map (fun i => g i n + g n i) (seq 0 n)))
+                  + 0 + (lsum (map (fun i => g i i) (seq 0 n)) + g n n) : K).
+    { rewrite lsum_map_add. ring. }
+    f_equal. f_equal. rewrite <- lsum_map_add. apply lsum_map_ext. intros i Hi. apply in_seq in Hi.
+    replace (Datatypes.S n - (i + 1))%nat with (Datatypes.S (n - (i + 1))) by lia.
+    rewrite seq_S_last, map_app, lsum_app. cbn [map]. rewrite lsum_one.
+    replace (i + 1 + (n - (i + 1)))%nat with n by lia. reflexivity.
+  Qed.
+
+  Theorem dpairs_edges_sum n adj (f : nat -> nat -> K) :
+    (forall i j, adj i j = adj j i) -> (forall i, adj i i = false) ->
+    lsum (map (fun e => f (fst e) (snd e)) (dpairs n adj))
+    = lsum (map (fun e => f (fst e) (snd e) + f (snd e) (fst e)) (edges n adj)).
+  Proof.
+    intros Sym Irr. unfold dpairs, edges. rewrite !lsum_flat_map.
+    transitivity (lsum (map (fun i => lsum (map (fun j => if adj i j then f i j else 0) (seq 0 n))) (seq 0 n)) : K).
+    { apply lsum_map_ext. intros i _. rewrite map_map. cbn [fst snd]. rewrite lsum_filter. reflexivity. }
+    rewrite (dsum_sym n (fun i j => if adj i j then f i j else 0)).
+    transitivity (lsum (map (fun i => lsum (map (fun j => if adj i j then f i j + f j i else 0) (seq (i + 1) (n - (i + 1))))) (seq 0 n)) + 0 : K).
+    { f_equal.
+      - apply lsum_map_ext. intros i _. apply lsum_map_ext. intros j _.
+        rewrite (Sym j i). destruct (adj i j); ring.
+      - apply lsum_map_zero. intros i _. rewrite Irr. reflexivity. }
+    transitivity (lsum (map (fun i => lsum (map (fun j => if adj i j then f i j + f j i else 0) (seq (i + 1) (n - (i + 1))))) (seq 0 n)) : K); [ring|].
+    apply lsum_map_ext. intros i _. rewrite map_map. cbn [fst snd]. rewrite lsum_filter. reflexivity.
+  Qed.
+
+  (* ---------------------------------------------------------------- density-density entries *)
+  Lemma dens2_entry n i j r c : length r = n -> length c = n -> (i < n)%nat -> (j < n)%nat ->
+    dens2 n i j r c = if beq r c then (if nth i c false && nth j c false then 1 else 0) else 0.
+  Proof.
+    intros Hr Hc Hi Hj. unfold dens2. rewrite opstring_mono by assumption.
+    unfold mono_entry. cbn [rev app mono_apply].
+    destruct (lad_apply OA j c) as [[s1 b1]|] eqn:E1.
+    - destruct (lad_apply_num _ _ _ _ E1) as [E1' N1]. rewrite E1', N1.
+      destruct (lad_apply OA i c) as [[s2 b2]|] eqn:E2.
+      + destruct (lad_apply_num _ _ _ _ E2) as [E2' N2]. rewrite E2', N2.
+        destruct s1, s2; cbn [xorb sgnb andb]; reflexivity.
+      + rewrite (lad_apply_ann_none i c) by (try lia; exact E2). cbn [andb].
+        destruct (beq r c); reflexivity.
+    - rewrite (lad_apply_ann_none j c) by (try lia; exact E1). rewrite andb_false_r.
+      destruct (beq r c); reflexivity.
+  Qed.
+
+  Lemma dens2_herm n i j r c : length r = n -> length c = n -> (i < n)%nat -> (j < n)%nat ->
+    (dens2 n i j c r)^* = dens2 n i j r c.
+  Proof.
+    intros Hr Hc Hi Hj. rewrite !dens2_entry by assumption. rewrite (beq_sym c r).
+    destruct (beq r c) eqn:B; [|apply (conj_0 K L)]. apply beq_eq in B. subst.
+    destruct (nth i c false && nth j c false); [apply (conj_1 K L)|apply (conj_0 K L)].
+  Qed.
+
+  Lemma conj_kadj adj i j : (kadj (K:=K) adj i j)^* = kadj adj i j.
+  Proof. unfold kadj. destruct (adj i j); [apply (conj_1 K L)|apply (conj_0 K L)]. Qed.
+
+  Lemma idx2 Ls idx : In idx (all_idx Ls 2) -> exists i j, idx = [i; j] /\ (i < Ls)%nat /\ (j < Ls)%nat.
+  Proof.
+    intros H. apply all_idx_In in H. destruct H as [Hl Hf].
+    destruct idx as [|i [|j [|? ?]]]; try discriminate.
+    inversion Hf as [|? ? Hi Hf']; subst. inversion Hf' as [|? ? Hj _]; subst. eauto.
+  Qed.
+
+  Lemma idx4 Ls idx : In idx (all_idx Ls 4) ->
+    exists i j k l, idx = [i; j; k; l] /\ (i < Ls)%nat /\ (j < Ls)%nat /\ (k < Ls)%nat /\ (l < Ls)%nat.
+  Proof.
+    intros H. apply all_idx_In in H. destruct H as [Hl Hf].
+    destruct idx as [|i [|j [|k [|l [|? ?]]]]]; try discriminate.
+    inversion Hf as [|? ? Hi Hf1]; subst. inversion Hf1 as [|? ? Hj Hf2]; subst.
+    inversion Hf2 as [|? ? Hk Hf3]; subst. inversion Hf3 as [|? ? Hl' _]; subst.
+    exists i, j, k, l. auto.
+  Qed.
+
+  (* ---------------------------------------------------------------- Hubbard: whole operator *)
+  Lemma fop2 Ls (a b : fterm K) r c :
+    fop_matrix Ls [a; b] r c = fterm_matrix Ls a r c + fterm_matrix Ls b r c.
+  Proof. unfold fop_matrix. cbn [map]. rewrite !lsum_cons, lsum_nil. ring. Qed.
+
+  Theorem hubbard_spinless_matrix Ls adj (t u : K) r c :
+    fop_matrix Ls (hub_fop Ls adj t u false) r c
+    = (- t) * lsum (map (fun e => hop Ls (fst e) (snd e) r c) (dpairs Ls adj))
+      + u * lsum (map (fun e => dens2 Ls (fst e) (snd e) r c) (edges Ls adj)).
+  Proof. unfold hub_fop. rewrite fop2, hub_T_spinless, hub_V_spinless. reflexivity. Qed.
+
+  (** hopping over every edge once (both directions), for a symmetric irreflexive adjacency *)
+  Theorem hubbard_spinless_matrix_edges Ls adj (t u : K) r c :
+    (forall i j, adj i j = adj j i) -> (forall i, adj i i = false) ->
+    fop_matrix Ls (hub_fop Ls adj t u false) r c
+    = (- t) * lsum (map (fun e => hop Ls (fst e) (snd e) r c + hop Ls (snd e) (fst e) r c) (edges Ls adj))
+      + u * lsum (map (fun e => dens2 Ls (fst e) (snd e) r c) (edges Ls adj)).
+  Proof.
+    intros Sym Irr. rewrite hubbard_spinless_matrix.
+    rewrite (dpairs_edges_sum Ls adj (fun i j => hop Ls i j r c) Sym Irr). reflexivity.
+  Qed.
+
+  Theorem hubbard_spinful_matrix h adj (t u : K) r c :
+    fop_matrix (2 * h) (hub_fop (2 * h) adj t u true) r c
+    = (- t) * (lsum (map (fun e => hop (2 * h) (fst e) (snd e) r c) (dpairs h adj))
+               + lsum (map (fun e => hop (2 * h) (h + fst e) (h + snd e) r c) (dpairs h adj)))
+      + u * lsum (map (fun p => dens2 (2 * h) p (p + h) r c) (seq 0 h)).
+  Proof.
+    unfold hub_fop. rewrite fop2, hub_T_spinful, hub_V_spinful.
+    replace (2 * h / 2)%nat with h by (apply Nat.div_unique_exact; lia). reflexivity.
+  Qed.
+
+  Theorem hubbard_spinful_matrix_edges h adj (t u : K) r c :
+    (forall i j, adj i j = adj j i) -> (forall i, adj i i = false) ->
+    fop_matrix (2 * h) (hub_fop (2 * h) adj t u true) r c
+    = (- t) * (lsum (map (fun e => hop (2 * h) (fst e) (snd e) r c + hop (2 * h) (snd e) (fst e) r c) (edges h adj))
+               + lsum (map (fun e => hop (2 * h) (h + fst e) (h + snd e) r c
+                                     + hop (2 * h) (h + snd e) (h + fst e) r c) (edges h adj)))
+      + u * lsum (map (fun p => dens2 (2 * h) p (p + h) r c) (seq 0 h)).
+  Proof.
+    intros Sym Irr. rewrite hubbard_spinful_matrix.
+    rewrite (dpairs_edges_sum h adj (fun i j => hop (2 * h) i j r c) Sym Irr).
+    rewrite (dpairs_edges_sum h adj (fun i j => hop (2 * h) (h + i) (h + j) r c) Sym Irr). reflexivity.
+  Qed.
+
+  (** Hermiticity (is_hermitian() is the constant True) *)
+  Lemma hub_T_hermitian Ls adj (t : K) spin :
+    t^* = t -> (forall i j, adj i j = adj j i) ->
+    hermitian Ls (fterm_matrix Ls {| pat := [OC; OA]; coef := hub_kin Ls adj t spin |}).
+  Proof.
+    intros Ht Sym. apply fterm_hermitian; [reflexivity|]. cbn [pat coef length].
+    intros idx Hin. destruct (idx2 _ _ Hin) as [i [j [-> _]]]. cbn [rev app].
+    unfold hub_kin. destruct spin; unfold mat2tensor.
+    - unfold kron_id2. rewrite (conj_mul K L), (conj_opp K L), Ht, (Nat.eqb_sym (j / (Ls / 2))).
+      destruct (Nat.eqb (i / (Ls / 2)) (j / (Ls / 2))); [|rewrite (conj_0 K L); reflexivity].
+      rewrite conj_kadj. unfold kadj. rewrite Sym. reflexivity.
+    - rewrite (conj_mul K L), (conj_opp K L), Ht, conj_kadj. unfold kadj. rewrite Sym. reflexivity.
+  Qed.
+
+  Theorem hubbard_spinless_hermitian Ls adj (t u : K) :
+    t^* = t -> u^* = u -> (forall i j, adj i j = adj j i) ->
+    hermitian Ls (fop_matrix Ls (hub_fop Ls adj t u false)).
+  Proof.
+    intros Ht Hu Sym. apply hermitian_fop. unfold hub_fop.
+    constructor; [apply hub_T_hermitian; assumption|]. constructor; [|constructor].
+    intros r c Hr Hc. unfold madj. rewrite !hub_V_spinless.
+    rewrite (conj_mul K L), Hu, lsum_map_conj. f_equal. apply lsum_map_ext.
+    intros [i j] He. apply edges_In in He. cbn [fst snd]. apply dens2_herm; try assumption; lia.
+  Qed.
+
+  Theorem hubbard_spinful_hermitian h adj (t u : K) :
+    t^* = t -> u^* = u -> (forall i j, adj i j = adj j i) ->
+    hermitian (2 * h) (fop_matrix (2 * h) (hub_fop (2 * h) adj t u true)).
+  Proof.
+    intros Ht Hu Sym. apply hermitian_fop. unfold hub_fop.
+    constructor; [apply hub_T_hermitian; assumption|]. constructor; [|constructor].
+    intros r c Hr Hc. unfold madj. rewrite !hub_V_spinful.
+    replace (2 * h / 2)%nat with h by (apply Nat.div_unique_exact; lia).
+    rewrite (conj_mul K L), Hu, lsum_map_conj. f_equal. apply lsum_map_ext.
+    intros p Hp. apply in_seq in Hp. apply dens2_herm; try assumption; lia.
+  Qed.
+
+  (** particle number *)
+  Theorem hubbard_number_selection Ls adj (t u : K) spin r c :
+    length r = Ls -> length c = Ls -> popcount r <> popcount c ->
+    fop_matrix Ls (hub_fop Ls adj t u spin) r c = 0.
+  Proof.
+    intros Hr Hc Hne. unfold hub_fop. rewrite fop2.
+    rewrite !fterm_conserves_number by (try reflexivity; assumption). ring.
+  Qed.
+
+  Theorem hubbard_commutes_N Ls adj (t u : K) spin :
+    meq Ls (mmul Ls (fop_matrix Ls (hub_fop Ls adj t u spin)) Nmat)
+           (mmul Ls Nmat (fop_matrix Ls (hub_fop Ls adj t u spin))).
+  Proof. apply commutes_with_N. intros. apply hubbard_number_selection; assumption. Qed.
+
+  Lemma popcount_sum c : forall n, length c = n ->
+    lsum (map (fun i => if nth i c false then 1 else 0) (seq 0 n)) = knat (popcount c) :> K.
+  Proof.
+    induction c as [|x c IH]; intros n Hn; subst n; [reflexivity|].
+    cbn [length seq map nth]. rewrite lsum_cons, <- seq_shift, map_map. cbn [nth popcount].
+    rewrite (IH (length c) eq_refl).
+    destruct x; cbn [Nat.add knat]; ring.
+  Qed.
+
+  (** N = sum_i c_i a_i is the diagonal matrix of the occupation count *)
+  Theorem number_operator_diag n r c : length r = n -> length c = n ->
+    lsum (map (fun i => opstring n [(OC, i); (OA, i)] r c) (seq 0 n)) = Nmat r c :> K.
+  Proof.
+    intros Hr Hc. unfold Nmat.
+    transitivity (lsum (map (fun i => if beq r c then (if nth i c false then 1 else 0) else 0) (seq 0 n)) : K).
+    { apply lsum_map_ext. intros i Hi. apply in_seq in Hi. apply num_entry; try assumption; lia. }
+    destruct (beq r c); [apply popcount_sum; exact Hc|]. apply lsum_map_zero. reflexivity.
+  Qed.
+
+  (* ---------------------------------------------------------------- molecular Hamiltonian *)
+  Definition sum2 Ls (F : nat -> nat -> K) : K :=
+    lsum (map (fun i => lsum (map (fun j => F i j) (seq 0 Ls))) (seq 0 Ls)).
+  Definition sum4 Ls (F : nat -> nat -> nat -> nat -> K) : K :=
+    sum2 Ls (fun i j => sum2 Ls (fun k l => F i j k l)).
+
+  Lemma sum2_swap Ls F : sum2 Ls F = sum2 Ls (fun i j => F j i).
+  Proof. unfold sum2. apply lsum_map_swap. Qed.
+
+  Lemma term4_sum Ls p (ten : tensor K) r c : length p = 4%nat ->
+    fterm_matrix Ls {| pat := p; coef := ten |} r c
+    = sum4 Ls (fun i j k l => ten [i; j; k; l] * opstring Ls (combine p [i; j; k; l]) r c).
+  Proof.
+    intros Hp. unfold fterm_matrix, sum4, sum2. cbn [pat coef]. rewrite Hp.
+    rewrite all_idx_S_sum. apply lsum_map_ext. intros i _.
+    rewrite all_idx_S_sum. apply lsum_map_ext. intros j _.
+    rewrite all_idx_S_sum. apply lsum_map_ext. intros k _.
+    rewrite all_idx_S_sum. apply lsum_map_ext. intros l _.
+    cbn [all_idx map]. rewrite lsum_one. reflexivity.
+  Qed.
+
+  Lemma fop3 Ls (a b d : fterm K) r c :
+    fop_matrix Ls [a; b; d] r c = fterm_matrix Ls a r c + fterm_matrix Ls b r c + fterm_matrix Ls d r c.
+  Proof. unfold fop_matrix. cbn [map]. rewrite !lsum_cons, lsum_nil. ring. Qed.
+
+  (** H = c + sum t_ij a+_i a_j + 1/2 sum v_ijkl a+_i a+_j a_l a_k  (note l before k) *)
+  Theorem molecular_matrix Ls (half : K) (H : molham K) r c :
+    fop_matrix Ls (mol_fop half H) r c
+    = m_c H * mid r c
+      + sum2 Ls (fun i j => m_t H [i; j] * opstring Ls [(OC, i); (OA, j)] r c)
+      + sum4 Ls (fun i j k l => half * m_v H [i; j; k; l]
+                                * opstring Ls [(OC, i); (OC, j); (OA, l); (OA, k)] r c).
+  Proof.
+    unfold mol_fop. rewrite fop3. f_equal; [f_equal|].
+    - unfold fterm_matrix. cbn [pat coef length all_idx map combine]. rewrite lsum_one. reflexivity.
+    - rewrite term2_sum. reflexivity.
+    - rewrite term4_sum by reflexivity. unfold sum4.
+      unfold sum2 at 1 3. apply lsum_map_ext. intros i _. apply lsum_map_ext. intros j _.
+      rewrite sum2_swap. unfold sum2. apply lsum_map_ext. intros k _. apply lsum_map_ext. intros l _.
+      unfold tscal, ttranspose. reflexivity.
+  Qed.
+
+  Theorem molecular_hermitian keq Ls nsites (half c : K) creal tk vi herm varch H :
+    (forall a b : K, keq a b = true -> a = b) ->
+    (creal = true -> c^* = c) -> half^* = half ->
+    mol_ctor keq Ls nsites c creal tk vi herm varch = Some H ->
+    mol_is_hermitian H = true ->
+    hermitian Ls (fop_matrix Ls (mol_fop half H)).
+  Proof.
+    intros Hk Hc Hh Hctor Hflag. unfold mol_ctor in Hctor.
+    destruct (negb (Nat.eqb nsites Ls)); [discriminate|].
+    destruct herm.
+    2:{ destruct (false && negb creal); [discriminate|]. cbn [andb] in Hctor.
+        destruct (varch && _); [discriminate|]. inversion Hctor; subst. discriminate. }
+    cbn [andb] in Hctor.
+    destruct creal; [|discriminate]. cbn [negb] in Hctor.
+    destruct (teqb keq Ls 2 tk (tT (tconj tk))) eqn:ET; [|discriminate]. cbn [negb] in Hctor.
+    destruct (teqb keq Ls 4 vi (ttranspose [2; 3; 0; 1]%nat (tconj vi))) eqn:EV; [|discriminate]. cbn [negb] in Hctor.
+    destruct (varch && _); [discriminate|]. inversion Hctor; subst. clear Hctor Hflag.
+    unfold teqb in ET, EV. rewrite forallb_forall in ET, EV.
+    apply hermitian_fop. unfold mol_fop. cbn [m_c m_t m_v].
+    constructor; [|constructor; [|constructor; [|constructor]]].
+    - apply fterm_hermitian; [reflexivity|]. cbn [pat coef length]. intros idx _. symmetry. apply Hc. reflexivity.
+    - apply fterm_hermitian; [reflexivity|]. cbn [pat coef length]. intros idx Hin.
+      apply Hk. apply (ET idx Hin).
+    - apply fterm_hermitian; [reflexivity|]. cbn [pat coef length]. intros idx Hin.
+      destruct (idx4 _ _ Hin) as [i [j [k [l [-> [Hi [Hj [Hk' Hl]]]]]]]].
+      unfold tscal, ttranspose. cbn [rev app]. rewrite (conj_mul K L), Hh. f_equal.
+      change (tr_index [0; 1; 3; 2]%nat [i; j; k; l]) with [i; j; l; k].
+      change (tr_index [0; 1; 3; 2]%nat [l; k; j; i]) with [l; k; i; j].
+      assert (In' : In [i; j; l; k] (all_idx Ls 4)) by (apply all_idx_In; split; [reflexivity|repeat constructor; assumption]).
+      pose proof (Hk _ _ (EV _ In')) as E. unfold ttranspose, tconj in E.
+      change (tr_index [2; 3; 0; 1]%nat [i; j; l; k]) with [l; k; i; j] in E. exact E.
+  Qed.
+
+  Theorem molecular_number_selection Ls (half : K) (H : molham K) r c :
+    length r = Ls -> length c = Ls -> popcount r <> popcount c ->
+    fop_matrix Ls (mol_fop half H) r c = 0.
+  Proof.
+    intros Hr Hc Hne. unfold mol_fop. rewrite fop3.
+    rewrite !fterm_conserves_number by (try reflexivity; assumption). ring.
+  Qed.
+
+  (** the constructor's decision rule, exact version *)
+  Theorem mol_ctor_spec keq Ls nsites (c : K) creal tk vi herm varch :
+    (forall a b : K, keq a b = true <-> a = b) ->
+    match mol_ctor keq Ls nsites c creal tk vi herm varch with
+    | Some H => nsites = Ls /\ m_c H = c /\ m_herm H = herm /\ m_varch H = varch
+                /\ (herm = true -> creal = true
+                    /\ (forall i j, (i < Ls)%nat -> (j < Ls)%nat -> tk [i; j] = (tk [j; i])^*)
+                    /\ (forall i j k l, (i < Ls)%nat -> (j < Ls)%nat -> (k < Ls)%nat -> (l < Ls)%nat ->
+                          vi [i; j; k; l] = (vi [k; l; i; j])^*))
+                /\ (varch = true ->
+                    forall i j k l, (i < Ls)%nat -> (j < Ls)%nat -> (k < Ls)%nat -> (l < Ls)%nat ->
+                          vi [i; j; k; l] = vi [j; i; l; k])
+    | None => True
+    end.
+  Proof.
+    intros Hk. unfold mol_ctor.
+    destruct (Nat.eqb nsites Ls) eqn:EN; cbn [negb]; [|exact I]. apply Nat.eqb_eq in EN.
+    destruct (herm && negb creal) eqn:E1; [exact I|].
+    destruct (herm && negb (teqb keq Ls 2 tk (tT (tconj tk)))) eqn:E2; [exact I|].
+    destruct (herm && negb (teqb keq Ls 4 vi (ttranspose [2; 3; 0; 1]%nat (tconj vi)))) eqn:E3; [exact I|].
+    destruct (varch && negb (teqb keq Ls 4 vi (ttranspose [1; 0; 3; 2]%nat vi))) eqn:E4; [exact I|].
+    cbn [m_c m_herm m_varch]. repeat split; try assumption; try reflexivity.
+    - intros ->. cbn [andb] in E1, E2, E3. apply negb_false_iff in E1, E2, E3. split; [exact E1|].
+      unfold teqb in E2, E3. rewrite forallb_forall in E2, E3. split.
+      + intros i j Hi Hj.
+        assert (In' : In [i; j] (all_idx Ls 2)) by (apply all_idx_In; split; [reflexivity|repeat constructor; assumption]).
+        apply Hk. apply (E2 _ In').
+      + intros i j k l Hi Hj Hk' Hl.
+        assert (In' : In [i; j; k; l] (all_idx Ls 4)) by (apply all_idx_In; split; [reflexivity|repeat constructor; assumption]).
+        apply Hk. apply (E3 _ In').
+    - intros ->. cbn [andb] in E4. apply negb_false_iff in E4.
+      unfold teqb in E4. rewrite forallb_forall in E4.
+      intros i j k l Hi Hj Hk' Hl.
+      assert (In' : In [i; j; k; l] (all_idx Ls 4)) by (apply all_idx_In; split; [reflexivity|repeat constructor; assumption]).
+      apply Hk. apply (E4 _ In').
+  Qed.
 End Proofs2.
